@@ -1,20 +1,33 @@
 package rules
 
 import (
+	"bytes"
+	"fmt"
+	"os"
+	"os/exec"
+	"path/filepath"
+	"sort"
+	"strings"
+	"sync"
+
 	"verif/checker/internal/core"
 	"verif/checker/internal/ctx"
 )
 
-// Mutant is one micro-mutation of the repository used to validate the checker.
+// Mutant is one micro-mutation of the repository used to validate the checker
+// (thorough tier). It is applied through an in-memory overlay, never on disk.
 type Mutant struct {
 	ID       string
 	Property string
 	File     string // repo-relative
-	Old, New string // exact substring replacement (must occur exactly once)
+	Old, New string // exact substring replacement (Old must occur exactly once)
 	Rule     string // rule expected to fire
+	Note     string
 }
 
 var mutants []Mutant
+
+func addMutants(ms ...Mutant) { mutants = append(mutants, ms...) }
 
 func Mutants(prop string) []Mutant {
 	var out []Mutant
@@ -23,9 +36,93 @@ func Mutants(prop string) []Mutant {
 			out = append(out, m)
 		}
 	}
+	sort.Slice(out, func(i, j int) bool { return out[i].ID < out[j].ID })
 	return out
 }
 
-func ApplyMutant(c *ctx.Ctx, prop, id string) error { return nil }
+// ApplyMutant installs the overlay for one mutant.
+func ApplyMutant(c *ctx.Ctx, prop, id string) error {
+	for _, m := range mutants {
+		if m.Property != prop || m.ID != id {
+			continue
+		}
+		b, err := c.ReadFile(m.File)
+		if err != nil {
+			return err
+		}
+		if n := strings.Count(string(b), m.Old); n != 1 {
+			return fmt.Errorf("mutant %s: anchor text occurs %d times in %s (the repository was edited; self-test skipped)", id, n, m.File)
+		}
+		c.Overlay[filepath.Join(c.Repo, m.File)] = []byte(strings.Replace(string(b), m.Old, m.New, 1))
+		return nil
+	}
+	return fmt.Errorf("unknown mutant %s for %s", id, prop)
+}
 
-func SelfValidate(c *ctx.Ctx, r *core.Reporter, prop string) {}
+// SelfValidate runs every mutant of the property in its own process and
+// records whether the expected rule fired. A mutant that cannot be applied
+// because /repo was edited is reported as skipped, never as a violation.
+func SelfValidate(c *ctx.Ctx, r *core.Reporter, prop string) {
+	ms := Mutants(prop)
+	r.Begin("selftest."+prop, "self-validation", "each catalogued single-edit mutant of the repository (applied through an in-memory overlay) makes the expected rule report a violation", 0)
+	if len(ms) == 0 {
+		return
+	}
+	exe, err := os.Executable()
+	if err != nil {
+		r.Info("selftest", "", "cannot locate own executable: "+err.Error())
+		return
+	}
+	type result struct {
+		m     Mutant
+		out   string
+		code  int
+		fired bool
+	}
+	results := make([]result, len(ms))
+	sem := make(chan struct{}, 6)
+	var wg sync.WaitGroup
+	for i, m := range ms {
+		wg.Add(1)
+		go func(i int, m Mutant) {
+			defer wg.Done()
+			sem <- struct{}{}
+			defer func() { <-sem }()
+			cmd := exec.Command(exe, "-property", prop, "-tier", "quick", "-mutant", m.ID, "-repo", c.Repo, "-verif", c.Verif)
+			var buf bytes.Buffer
+			cmd.Stdout = &buf
+			cmd.Stderr = &buf
+			err := cmd.Run()
+			code := 0
+			if ee, ok := err.(*exec.ExitError); ok {
+				code = ee.ExitCode()
+			} else if err != nil {
+				code = -1
+			}
+			out := buf.String()
+			fired := false
+			for _, l := range strings.Split(out, "\n") {
+				if strings.Contains(l, "["+m.Rule+"]") && (strings.Contains(l, " violated ") || strings.Contains(l, " undecided ")) {
+					fired = true
+				}
+			}
+			results[i] = result{m, out, code, fired}
+		}(i, m)
+	}
+	wg.Wait()
+	killed := 0
+	for _, res := range results {
+		switch {
+		case res.code == 3:
+			r.Info("mutant:"+res.m.ID, res.m.File, "self-test skipped: "+strings.TrimSpace(res.out))
+		case res.fired && res.code == 1:
+			killed++
+			r.OK("mutant:"+res.m.ID, res.m.File, fmt.Sprintf("mutant (%s) detected by %s", res.m.Note, res.m.Rule))
+		default:
+			// a missed mutant is a weakness of the checker, not a violation of the property on the tree
+			r.Info("mutant-missed:"+res.m.ID, res.m.File, fmt.Sprintf("mutant (%s) NOT detected by %s (exit %d)", res.m.Note, res.m.Rule, res.code))
+		}
+	}
+	r.Count("self-validation mutants run", len(ms))
+	r.Count("self-validation mutants detected", killed)
+}
